@@ -191,4 +191,64 @@ def pnext (fv : Nat) (autoPage : Bool) : List Bytes → PScanner → PNextOut
 def pscannerScan (s : PScanner) (dests : List Bool) : ScannerScanOut :=
   Scanner.scan { it := s.q.it, cols := s.cols, valid := s.valid } dests
 
+/-! ## the one-row conveniences: Query.Scan, Query.ScanCAS, Query.MapScanCAS (session.go:1337-1394) -/
+
+/-- the error these calls return: nil, ErrNotFound, or `iter.err` -/
+inductive QErr
+  | nil
+  | notFound
+  | iter (e : IterErr)
+deriving Repr
+
+/-- iter.Close() -/
+def closeErr (q : QIter) : QErr := match q.err with | none => .nil | some e => .iter e
+
+/-- Query.Scan(dest...): `checkErrAndNotFound`, ONE Iter.Scan whose result is ignored, `iter.Close()`.
+    `none` = a panic. (numRows > 0 and pos = 0: no page is fetched.) -/
+def queryScan (q : QIter) (dests : List Bool) : Option (List Call × QErr) :=
+  if q.it.failed then some ([], closeErr q)
+  else if q.it.numRows == 0 then some ([], .notFound)
+  else match scanHere q [] dests with
+    | .row q' _ calls => some (calls, closeErr q')
+    | .stop q' _ calls => some (calls, closeErr q')
+    | .crash => none
+
+/-- marshal.go decBool -/
+def decBool : Option Bytes → Bool
+  | some (b :: _) => b != 0
+  | _ => false
+
+def isBoolean (t : TypeInfo) : Bool := match t with | .native n => n.typ == 0x04 | _ => false
+
+/-- Query.ScanCAS(dest...): with more than one column `&applied` is put in front of the caller's destinations,
+    with one column only `&applied` is scanned. Destination 0 is a typed `*bool`: Unmarshal fails there unless the
+    (first element of the) first column is boolean, and the Scan stops. The caller's destination j is position j + 1. -/
+def scanCAS (q : QIter) (ndests : Nat) : Option (Bool × List Call × QErr) :=
+  if q.it.failed then some (false, [], closeErr q)
+  else if q.it.numRows == 0 then some (false, [], .notFound)
+  else
+    let dests := if q.it.md.columns.length > 1 then List.replicate (ndests + 1) true else [true]
+    match scanHere q [] dests with
+    | .crash => none
+    | .row q' _ calls | .stop q' _ calls =>
+      match calls with
+      | [] => some (false, [], closeErr q')
+      | c0 :: more =>
+        if c0.dest == 0 && !isBoolean c0.typ then some (false, [], .iter .scan)
+        else some (decBool c0.data, more.map (fun c => { c with dest := c.dest - 1 }), closeErr q')
+
+/-- Query.MapScanCAS(map) with an empty map, columns of boolean / blob / ascii / text / varchar type (the typed value
+    is the cell's bytes): `iter.MapScan(dest)`, then `dest["[applied]"].(bool)` — a PANIC when MapScan returned false
+    (nothing was stored) or when no column is called `[applied]` -/
+def mapScanCAS (q : QIter) : Option (Bool × List (Bytes × Bytes) × QErr) :=
+  if q.it.failed then some (false, [], closeErr q)
+  else if q.it.numRows == 0 then some (false, [], .notFound)
+  else match mapScan q.it with
+    | .crash => none
+    | .stop _ => none                                  -- dest["[applied]"] is nil: interface conversion panics
+    | .row _ m =>
+      match m.lookup [0x5B, 0x61, 0x70, 0x70, 0x6C, 0x69, 0x65, 0x64, 0x5D] with
+      | none => none                                   -- the same panic
+      | some v => some (decBool v, (m.filter (fun kv => kv.1 != [0x5B, 0x61, 0x70, 0x70, 0x6C, 0x69, 0x65, 0x64, 0x5D])).map (fun kv => (kv.1, kv.2.getD [])), closeErr q)
+
 end Paged
